@@ -32,6 +32,8 @@ NoOwed(s) == \A c \in Cs : ~s[c].owed           \* after the backlog drained, on
 Step(ev, s) ==
   LET c == ev.c  x == s[c] IN
   CASE ev.op = "pair" -> IF ev.ok THEN Upd(s, c, [InitC EXCEPT !.alive = TRUE]) ELSE { s }
+    \* a client accepted from a listener / connected by an establisher (c = 0: the harness had no slot and rejected it)
+    [] ev.op \in {"onAccepted", "onConnected"} -> IF ev.c > 0 THEN Upd(s, ev.c, [InitC EXCEPT !.alive = TRUE]) ELSE { s }
     \* an intercepted send: the OS took ev.ret bytes (ev.b) out of ev.req offered
     [] ev.op = "send" ->
          IF ~x.alive \/ ~NoOwed(s) THEN {}
